@@ -5,7 +5,8 @@ from lib.semcheck import model_expr, compare, describe, shrink, IMPORTS
 
 ID = 'C05'
 THEOREMS = ['C05_cut_code_correct', 'C05_compiled_program_computes_reference', 'C05_cut_prunes_later_clauses', 'C05_no_cut_continues', 'C05_cut_local_to_predicate', 'C05_query_result_after_cut', 'C05_cut_spec_readable', 'C05_cut_first',
-            'C05_cut_in_disjunction_branch', 'C05_cut_in_then_branch', 'C05_cut_in_else_branch', 'C05_cut_survives_continuation', 'C05_cut_continuation_backtracks']
+            'C05_cut_in_disjunction_branch', 'C05_cut_in_then_branch', 'C05_cut_in_else_branch', 'C05_cut_survives_continuation', 'C05_cut_continuation_backtracks',
+            'C05_consumers_ignore_cut_flag', 'C05_evaluate_bounded_is_plain_iteration', 'C05_cut_flag_is_not_the_end_of_the_query', 'C05_stopping_at_the_cut_flag_loses_answers']
 CASE_TIMEOUT = 60
 MODEL_NEEDS_IMPL = True
 COQ_CHUNK = 20
@@ -17,7 +18,12 @@ RULE = ('random programs as for C01 whose bodies also contain ! at the top level
         'the nesting limit of the emitted Python) with cuts, cuts nested in ;/-> branches, if-then-else and negation at every position '
         'including the last ones, later clauses and caller alternatives; directly recursive predicates over lists / s(N) / acyclic graphs '
         'with random cut placement (base clause ending in !, cut before the recursive call), tail and non-tail recursion and alternatives at '
-        'every level of the recursion.')
+        'every level of the recursion.  Round 4: every program is also run behind every consumer API (plain iteration, evaluate_bounded with a '
+        'recursion limit at / above the one in force and with its default, list(), next()+close()), with some of its cut-free conjunctive '
+        'predicates (the callers) written in Python as re-entrant twins that query the same engine inside their loops (yielding False / True / '
+        'passing the flag of their last goal on), and with the clauses of one predicate split over two scripts loaded with overwrite=False; '
+        'all must present the answers of plain iteration of the all-compiled single script (the split one when its first part has no cut; '
+        'otherwise only its own consumers must agree with each other), leave no variable bound and the recursion limit unchanged.')
 TRUSTED_BASE = []
 
 N_LONG = {'quick': 50, 'thorough': 400}
